@@ -108,6 +108,7 @@ type rcClient struct {
 	version byte
 	nextID  uint16
 	ops     *uint64
+	recv    *uint64 // optional: number of packets received from the broker
 }
 
 func (c *rcClient) send(pk packets.Packet) {
@@ -164,6 +165,9 @@ func (c *rcClient) reader(done chan struct{}) {
 			return
 		}
 		fh.Remaining = rem
+		if c.recv != nil {
+			atomic.AddUint64(c.recv, 1)
+		}
 		pk := packets.Packet{FixedHeader: fh, ProtocolVersion: c.version}
 		switch fh.Type {
 		case packets.Publish:
